@@ -88,12 +88,22 @@ let rec check_queries t qs outs =
     if opt_id (Model.ancestor_spec t (nat b) (z_of_string h)) = o then check_queries t r os
     else "fail GetAncestor is not the block at that height on the path to genesis (query a " ^ b ^ " " ^ h ^ ")"
   | "s" :: b :: r, o :: os ->
+    (* what the navigation functions need from pskip: null exactly for a block without parent,
+       otherwise a proper ancestor (strictly lower height) of the block.  Which ancestor is a
+       performance choice: a different one shows as a disagreement with the model, not as a failure. *)
     (match Model.get_node t (nat b) with
      | Some nd ->
-       let want = match nd.Model.nd_parent with
-         | None -> "null"
-         | Some _ -> opt_id (Model.ancestor_spec t (nat b) (Model.get_skip_height nd.Model.nd_height)) in
-       if want = o then check_queries t r os else "fail pskip is not the ancestor at GetSkipHeight(nHeight) (block " ^ b ^ ")"
+       let good = match nd.Model.nd_parent, o with
+         | None, "null" -> true
+         | Some _, "null" -> false
+         | None, _ -> false
+         | Some _, _ ->
+           (match int_of_string_opt o with
+            | Some s ->
+              let hs = height t (nat_of_int s) in
+              Z.geq hs Z.zero && Z.lt hs (zt_of_z nd.Model.nd_height) && anc t (nat b) hs = Some (nat_of_int s)
+            | None -> false) in
+       if good then check_queries t r os else "fail pskip is not a proper ancestor of the block (block " ^ b ^ ")"
      | None -> "na")
   | "h" :: b :: r, o :: os ->
     if Z.to_string (height t (nat b)) = o then check_queries t r os else "fail nHeight is not parent height + 1"
